@@ -62,6 +62,7 @@ type ExitKind int
 const (
 	ExitReturn ExitKind = iota
 	ExitNoReturn
+	ExitTruncated // prefix cut at the per-block visit bound
 )
 
 // Path is one acyclic-ish path (each block at most twice) from entry to an exit.
@@ -83,6 +84,7 @@ type Flow struct {
 	comm    map[ast.Node]bool       // comm statements of select clauses (evaluated at the case, not before)
 	caseTag map[ast.Expr]*ast.SwitchStmt
 	paths   []Path
+	truncated []Path
 	over    bool
 	done    bool
 	pruned  int // infeasible prefixes pruned
@@ -279,6 +281,12 @@ func isNoReturnExit(f *Flow, b *cfg.Block) bool {
 	return false
 }
 
+// Truncated returns the path prefixes that were cut at the visit bound.
+func (f *Flow) Truncated() []Path {
+	f.Paths()
+	return f.truncated
+}
+
 // Paths enumerates the paths of the function; ok is false if the bound was exceeded.
 func (f *Flow) Paths() (paths []Path, ok bool) {
 	if f.done {
@@ -299,6 +307,14 @@ func (f *Flow) Paths() (paths []Path, ok bool) {
 			return
 		}
 		if visits[b.Index] >= f.maxVisits() {
+			// the path is cut here: keep the prefix (a feasible prefix of real paths) for rules
+			// that look for a bad sequence of events rather than for a property of complete paths
+			if len(f.truncated) < PathLimit {
+				t := Path{Exit: ExitTruncated, Ev: make([]Event, len(cur)+len(pre))}
+				copy(t.Ev, cur)
+				copy(t.Ev[len(cur):], pre)
+				f.truncated = append(f.truncated, t)
+			}
 			return
 		}
 		mark := len(cur)
